@@ -101,7 +101,11 @@ func genC13(p *Plan, r *RNG) {
 		}
 		switch w := r.Intn(100); {
 		case w < 30:
-			p.Ops = append(p.Ops, Op{Actor: fmt.Sprintf("app%d", r.Intn(3)), Kind: "writeto", At: g, A: OpArgs{Peer: peer, Len: r.Range(9, 300)}})
+			o := Op{Actor: fmt.Sprintf("app%d", r.Intn(3)), Kind: "writeto", At: g, A: OpArgs{Peer: peer, Len: r.Range(9, 300)}}
+			if r.Chance(1, 4) {
+				o.A.Flags = []string{"ip4"} // the peer's address in the other net.IP form: the same peer
+			}
+			p.Ops = append(p.Ops, o)
 		case w < 45:
 			p.Ops = append(p.Ops, Op{Actor: "app", Kind: "readfrom", At: g})
 			readers++
